@@ -1,6 +1,6 @@
 (* C08 — parameter provenance is complete, truthful and depth-ordered. *)
 From Sigtools.Model Require Import Base Bind Roles Algebra.
-From Sigtools.Proofs Require Import Prov ProvKeys ProvNoDup Contrib.
+From Sigtools.Proofs Require Import Prov ProvKeys ProvNoDup Contrib ContribEmbed ProvNoDupOps.
 
 (* merge_depths keeps, for every callable, the smallest depth listed on either side *)
 Theorem C08_depths_min l r f :
@@ -106,4 +106,59 @@ Print Assumptions C08_merge2_nodup_partial.
 Theorem C08_merge2_src_exact : forall a b : sigT, valid_sig (params a) = true -> valid_sig (params b) = true -> name_aligned (params a) (params b) = true -> role_consistent [params a; params b] = true -> forall (r : sigT) (p : param) (f : N), merge [a; b] = Ok r -> ProvKeys.src_ok a -> ProvKeys.src_ok b -> In p (params r) -> is_named p = true -> In f (src_get (srcs r) (pname p)) <-> In f (src_get (srcs a) (pname p)) \/ In f (src_get (srcs b) (pname p)).
 Proof. exact @Contrib.merge2_src_exact. Qed.
 Print Assumptions C08_merge2_src_exact.
+
+
+(* ---- list shapes, duplicate-freedom and exactness for mask / partial / embed / forwards and the n-ary merge
+   (Proofs/ProvNoDupOps.v) ---- *)
+Theorem C08_mask_gen_src_shape : forall (s : sigT) (n : nat) (h : hideflags) (named : list (name * N)) (pm : pmode) (r : sigT) (x : name), mask_gen s n h named pm = Ok r -> src_get (srcs r) x = src_get (srcs s) x \/ src_get (srcs r) x = [] \/ (exists pobj : N, pm = Some pobj /\ src_get (srcs r) x = [pobj]).
+Proof. exact @ProvNoDupOps.mask_gen_src_shape. Qed.
+Print Assumptions C08_mask_gen_src_shape.
+
+Theorem C08_mask_nodup : forall (s : sigT) (n : nat) (names0 : list name) (h : hideflags) (r : sigT) (x : name), mask s n names0 h = Ok r -> NoDup (src_get (srcs s) x) -> NoDup (src_get (srcs r) x).
+Proof. exact @ProvNoDupOps.mask_nodup. Qed.
+Print Assumptions C08_mask_nodup.
+
+Theorem C08_sig_partial_nodup : forall (s : sigT) (n : nat) (kw : list (name * N)) (pobj : N) (r : sigT) (x : name), sig_partial s n kw pobj = Ok r -> NoDup (src_get (srcs s) x) -> NoDup (src_get (srcs r) x).
+Proof. exact @ProvNoDupOps.sig_partial_nodup. Qed.
+Print Assumptions C08_sig_partial_nodup.
+
+Theorem C08_embed2_src_shape : forall (o i : sigT) (uva uvk : bool) (r : sigT) (x : name), embed [o; i] uva uvk = Ok r -> valid_sig (params o) = true -> ProvKeys.src_ok o -> valid_sig (params i) = true -> src_get (srcs r) x = src_get (srcs o) x \/ src_get (srcs r) x = src_get (srcs i) x \/ src_get (srcs r) x = [].
+Proof. exact @ProvNoDupOps.embed2_src_shape. Qed.
+Print Assumptions C08_embed2_src_shape.
+
+Theorem C08_embed2_nodup : forall (o i : sigT) (uva uvk : bool) (r : sigT) (x : name), embed [o; i] uva uvk = Ok r -> valid_sig (params o) = true -> ProvKeys.src_ok o -> valid_sig (params i) = true -> NoDup (src_get (srcs o) x) -> NoDup (src_get (srcs i) x) -> NoDup (src_get (srcs r) x).
+Proof. exact @ProvNoDupOps.embed2_nodup. Qed.
+Print Assumptions C08_embed2_nodup.
+
+Theorem C08_forwards_src_shape : forall (o i : sigT) (n : nat) (names0 : list name) (ha hk uva uvk pt : bool) (r : sigT) (x : name), forwards o i n names0 ha hk uva uvk pt = Ok r -> valid_sig (params o) = true -> ProvKeys.src_ok o -> src_get (srcs r) x = src_get (srcs o) x \/ src_get (srcs r) x = src_get (srcs i) x \/ src_get (srcs r) x = [].
+Proof. exact @ProvNoDupOps.forwards_src_shape. Qed.
+Print Assumptions C08_forwards_src_shape.
+
+Theorem C08_forwards_nodup : forall (o i : sigT) (n : nat) (names0 : list name) (ha hk uva uvk pt : bool) (r : sigT) (x : name), forwards o i n names0 ha hk uva uvk pt = Ok r -> valid_sig (params o) = true -> ProvKeys.src_ok o -> NoDup (src_get (srcs o) x) -> NoDup (src_get (srcs i) x) -> NoDup (src_get (srcs r) x).
+Proof. exact @ProvNoDupOps.forwards_nodup. Qed.
+Print Assumptions C08_forwards_nodup.
+
+Theorem C08_embed2_src_exact : forall (o i : sigT) (uva uvk : bool) (r : sigT) (p : param) (f : N), embed [o; i] uva uvk = Ok r -> valid_sig (params o) = true -> ProvKeys.src_ok o -> ProvKeys.src_ok i -> names_apart (params o) (params i) = true -> In p (params r) -> is_named p = true -> In f (src_get (srcs r) (pname p)) <-> In f (src_get (srcs o) (pname p)) \/ In f (src_get (srcs i) (pname p)).
+Proof. exact @ProvNoDupOps.embed2_src_exact. Qed.
+Print Assumptions C08_embed2_src_exact.
+
+Theorem C08_forwards_src_exact : forall (o i : sigT) (n : nat) (names0 : list name) (ha hk uva uvk pt : bool) (r : sigT) (p : param) (f : N), forwards o i n names0 ha hk uva uvk pt = Ok r -> valid_sig (params o) = true -> ProvKeys.src_ok o -> valid_sig (params i) = true -> ProvKeys.src_ok i -> names_apart (params o) (params i) = true -> In p (params r) -> is_named p = true -> In f (src_get (srcs r) (pname p)) <-> In f (src_get (srcs o) (pname p)) \/ In f (src_get (srcs i) (pname p)).
+Proof. exact @ProvNoDupOps.forwards_src_exact. Qed.
+Print Assumptions C08_forwards_src_exact.
+
+Theorem C08_embed2_src_exact_needs_apart : exists (o i r : sigT) (p : param), valid_sig (params o) = true /\ ProvKeys.src_ok o /\ valid_sig (params i) = true /\ ProvKeys.src_ok i /\ embed [o; i] false false = Ok r /\ In p (params r) /\ is_named p = true /\ src_get (srcs r) (pname p) = [100] /\ src_get (srcs i) (pname p) = [101].
+Proof. exact @ProvNoDupOps.embed2_src_exact_needs_apart. Qed.
+Print Assumptions C08_embed2_src_exact_needs_apart.
+
+Theorem C08_merge_nested_src_shape : forall (ss : list sigT) (r : sigT) (x : name), merge_nested ss = Ok r -> Forall (fun s : sigT => valid_sig (params s) = true) ss -> exists js : list nat, NoDup js /\ (forall j : nat, In j js -> (j < length ss)%nat) /\ src_get (srcs r) x = cat_of ss x js.
+Proof. exact @ProvNoDupOps.merge_nested_src_shape. Qed.
+Print Assumptions C08_merge_nested_src_shape.
+
+Theorem C08_merge_src_shape_rc : forall (ss : list sigT) (r : sigT) (x : name), merge ss = Ok r -> Forall (fun s : sigT => valid_sig (params s) = true) ss -> role_consistent (map params ss) = true -> exists js : list nat, NoDup js /\ (forall j : nat, In j js -> (j < length ss)%nat) /\ src_get (srcs r) x = cat_of ss x js.
+Proof. exact @ProvNoDupOps.merge_src_shape_rc. Qed.
+Print Assumptions C08_merge_src_shape_rc.
+
+Theorem C08_merge_nested_nodup : forall (ss : list sigT) (r : sigT) (x : name), merge_nested ss = Ok r -> Forall (fun s : sigT => valid_sig (params s) = true) ss -> (forall j : nat, NoDup (src_get (srcs (nth j ss nosig)) x)) -> (forall (j k : nat) (f : N), j <> k -> In f (src_get (srcs (nth j ss nosig)) x) -> ~ In f (src_get (srcs (nth k ss nosig)) x)) -> NoDup (src_get (srcs r) x).
+Proof. exact @ProvNoDupOps.merge_nested_nodup. Qed.
+Print Assumptions C08_merge_nested_nodup.
 
